@@ -7,7 +7,7 @@ CONSTANTS
   Ks = {1}
   Fmts = {"bc"}
   NFiles = {2}
-  Lazy = {FALSE}
+  Lazy = {"none"}
   Touches = {"lookup"}
   Variant = "design"
 CONSTRAINT Emit
